@@ -111,7 +111,7 @@ def compare_final(c, mv, r, rtol):
     return None, worst
 
 
-def check_trajectories(ck, cases, pid, rtol=2e-7, describe=None, shard=8, what=("step", "final")):
+def check_trajectories(ck, cases, pid, rtol=2e-7, describe=None, shard=25, what=("step", "final")):
     """Returns worst discrepancy. Reports violations through ck."""
     for c in cases:
         c["routine"] = "trajectory"
@@ -125,14 +125,15 @@ def check_trajectories(ck, cases, pid, rtol=2e-7, describe=None, shard=8, what=(
         if "step" in what:
             for k in range(len(sts) - 1):
                 dt = c["grid"][k + 1] - c["grid"][k]
-                terms.append(gen.coq_step(c, sts[k], dt))
+                terms.append(lambda c=c, e=sts[k], dt=dt: gen.coq_step(c, e, dt))
                 meta.append((i, "step", k))
         if "final" in what:
-            terms.append(gen.coq_finalize(c, sts))
+            terms.append(lambda c=c, sts=sts: gen.coq_finalize(c, sts))
             meta.append((i, "final", None))
     mres = None
     try:
-        mres = lib.coq_eval(pid, gen.HEADER, terms, shard=shard, timeout=900, case_timeout=240)
+        mres, xinfo = lib.dual_eval(pid, gen.HEADER, terms, sample=2, shard=shard)
+        ck.hist["ocaml_vs_coq_crosscheck"] = xinfo
     except RuntimeError as e:
         ck.notes.append(f"model evaluation failed: {str(e)[:800]}")
         ck.report(f"{pid}.model-eval", "model evaluation failed (Coq)", {"notes": ck.notes, "broken": "Run/GaussRun.v step_run/finalize_run"}, nofail=True)
